@@ -105,6 +105,11 @@ func GenScenario(r *rand.Rand, c04 bool) *Scenario {
 	}
 	// the shape of the channel tree: how many sub-channels are open concurrently under the ledger channel
 	nsub := []int{0, 0, 0, 1, 1, 2, 2, 3}[r.Intn(8)]
+	if s.PayApp {
+		// funding a sub-channel moves both parties' funds in one update of the parent, which the payment app
+		// refuses ("payer reduces participant's asset"): app channels carry no sub-channels here
+		nsub = 0
+	}
 	pay := func() Step { return Step{Kind: "pay", By: r.Intn(2), Amt: amt(), Accept: r.Intn(5) != 0} }
 	for i := r.Intn(3); i > 0; i-- {
 		s.Steps = append(s.Steps, pay())
@@ -413,7 +418,9 @@ func Execute(sc *Scenario) *Run {
 			update(root, st, func(s *channel.State) { r.transfer(s, r.idxOf(st.By), st.Amt) })
 		case "final":
 			st.Accept = true
-			update(root, st, func(s *channel.State) { s.IsFinal = true })
+			if len(root[st.By].State().Locked) == 0 { // never with locked funds (a sub-channel that could not be closed)
+				update(root, st, func(s *channel.State) { s.IsFinal = true })
+			}
 		case "tick":
 			e.TickN(st.N)
 		case "adv":
